@@ -2,6 +2,7 @@ package sim
 
 import (
 	"bufio"
+	"context"
 	"fmt"
 	"os"
 	"os/exec"
@@ -10,6 +11,7 @@ import (
 	"strconv"
 	"strings"
 	"sync"
+	"sync/atomic"
 	"time"
 
 	"go.pennock.tech/tabular/auto"
@@ -22,8 +24,23 @@ import (
 // in a binary built with -race.  The Go race detector (vector-clock
 // happens-before analysis) is the oracle.
 
-// RaceExec runs all tasks of a script in parallel, once.
-func RaceExec(s *Script) {
+// raceHangTimeout: a parallel execution takes milliseconds; one that has not
+// finished after this long has goroutines that will never finish (a lock left
+// held, an inverted lock order).
+const raceHangTimeout = 25 * time.Second
+
+// ExitRaceHang is the exit code of a race-prong process whose parallel
+// execution did not finish.
+const ExitRaceHang = 79
+
+// RaceExec runs all tasks of a script in parallel, once.  It reports false
+// when the tasks did not finish within raceHangTimeout.
+func RaceExec(s *Script) (finished bool) {
+	defer func() {
+		if recover() != nil { // panics are the serialised prong's business
+			finished = true
+		}
+	}()
 	start := make(chan struct{})
 	var wg sync.WaitGroup
 	prefix := fmt.Sprintf("race%x-%d-", s.Seed&0xffffff, time.Now().UnixNano()&0xffffff)
@@ -33,6 +50,7 @@ func RaceExec(s *Script) {
 		pool = append(pool, prefix+poolShapes[i])
 	}
 	tmpl := NewTemplateCell()
+	sharedErrs := NewTemplateErrs()
 	for t := range s.Tasks {
 		steps := cloneSteps(s.Tasks[t])
 		wg.Add(1)
@@ -44,11 +62,18 @@ func RaceExec(s *Script) {
 				raceRegTask(pool, steps)
 				return
 			}
-			runTableTask(steps, nil, nil, &taskResult{}, tmpl)
+			runTableTask(steps, nil, nil, &taskResult{}, sharedErrs, tmpl)
 		}()
 	}
 	close(start)
-	wg.Wait()
+	done := make(chan struct{})
+	go func() { wg.Wait(); close(done) }()
+	select {
+	case <-done:
+		return true
+	case <-time.After(raceHangTimeout):
+		return false
+	}
 }
 
 // raceRegTask performs registry operations without recording anything.
@@ -90,7 +115,11 @@ func RunRaceWorker(e Engine, tier string, batch uint64, lo, hi, stride int, dead
 		}
 		fmt.Fprintf(out, "RUN %d\n", idx)
 		out.Flush()
-		RaceExec(s)
+		if !RaceExec(s) {
+			fmt.Fprintf(out, "HANG %d\n", idx)
+			out.Flush()
+			os.Exit(ExitRaceHang)
+		}
 	}
 	fmt.Fprintf(out, "DONE\n")
 	out.Flush()
@@ -165,6 +194,22 @@ func raceOne(raceExe, path string, tries, procs int) (sig string, report string)
 	return "", report
 }
 
+// raceHangs runs one script file in the race binary up to tries times and
+// reports whether a parallel execution failed to finish.
+func raceHangs(raceExe, path string, tries, procs int) bool {
+	for i := 0; i < tries; i++ {
+		ctx, cancel := context.WithTimeout(context.Background(), 4*raceHangTimeout)
+		cmd := exec.CommandContext(ctx, raceExe, "raceone", path, "2")
+		cmd.Env = raceEnv(procs)
+		err := cmd.Run()
+		cancel()
+		if ee, ok := err.(*exec.ExitError); ok && ee.ExitCode() == ExitRaceHang {
+			return true
+		}
+	}
+	return false
+}
+
 type raceFinding struct {
 	sig    string
 	report string
@@ -199,6 +244,7 @@ func RunRaceProng(o CheckOptions, e Engine, runs int, workDir string) (finds []*
 		procs       int
 	}
 	results := make([]wres, workers)
+	var hangExits int32
 	var wg sync.WaitGroup
 	budget := 120
 	if o.Tier == "thorough" {
@@ -210,6 +256,9 @@ func RunRaceProng(o CheckOptions, e Engine, runs int, workDir string) (finds []*
 			defer wg.Done()
 			sem <- struct{}{}
 			defer func() { <-sem }()
+			if atomic.LoadInt32(&hangExits) >= 2 {
+				return // two processes already hung: the rest would only wait out the same hang
+			}
 			procs := 4
 			if k%2 == 1 {
 				procs = 16
@@ -227,6 +276,9 @@ func RunRaceProng(o CheckOptions, e Engine, runs int, workDir string) (finds []*
 			} else if err != nil {
 				code = -1
 			}
+			if code == ExitRaceHang {
+				atomic.AddInt32(&hangExits, 1)
+			}
 			results[k] = wres{so.String(), se.String(), code, procs}
 		}(k)
 	}
@@ -240,6 +292,10 @@ func RunRaceProng(o CheckOptions, e Engine, runs int, workDir string) (finds []*
 			continue
 		}
 		sig, ok := raceSignature(r.errOut)
+		if !ok && r.code == ExitRaceHang {
+			sig, ok = "parallel-hang", true
+			stats["race_prong_executions_that_did_not_finish"]++
+		}
 		if !ok {
 			fmt.Fprintf(os.Stderr, "tabsim: HARNESS TROUBLE race worker %d exited %d without a race report:\n%s\n", k, r.code, tail(r.errOut, 3000))
 			trouble = true
@@ -276,6 +332,40 @@ func RunRaceProng(o CheckOptions, e Engine, runs int, workDir string) (finds []*
 	// minimise each finding with subprocess executions
 	for _, f := range bySig {
 		tmp := filepath.Join(workDir, "racecand.json")
+		if strings.HasSuffix(f.sig, "/parallel-hang") {
+			// confirm in fresh processes: alone, else after the runs of that process
+			hangs := func(c *Script, tries int) bool {
+				c.Config["race"] = 1
+				c.WriteFile(tmp)
+				return raceHangs(o.RaceExe, tmp, tries, 8)
+			}
+			c := f.script.Clone()
+			confirmed := hangs(c, 3)
+			if !confirmed && len(f.before) > 0 {
+				c.Prelude = &Prelude{Batch: o.Seed, Tier: o.Tier, Indices: f.before}
+				if confirmed = hangs(c, 2); confirmed {
+					stats["race_findings_needing_a_prelude"]++
+					for tries := 0; len(c.Prelude.Indices) > 1 && tries < 4; tries++ {
+						half := c.Clone()
+						half.Prelude.Indices = half.Prelude.Indices[len(half.Prelude.Indices)/2:]
+						if !hangs(half, 1) {
+							break
+						}
+						c = half
+					}
+				}
+			}
+			if !confirmed {
+				fmt.Fprintf(os.Stderr, "tabsim: HARNESS TROUBLE a parallel execution of run %d did not finish, but fresh processes do not reproduce that\n", f.script.Index)
+				trouble = true
+				continue
+			}
+			c.Schedule = nil
+			c.Expect = &Expect{Signature: f.sig, Detail: fmt.Sprintf("the goroutines of this script, run in parallel without the scheduler, had not finished after %v (a lock left held, or a lock-order inversion)", raceHangTimeout)}
+			f.script = c
+			finds = append(finds, f)
+			continue
+		}
 		fails := func(c *Script) bool {
 			c.WriteFile(tmp)
 			sig, _ := raceOne(o.RaceExe, tmp, 4, 8)
@@ -375,12 +465,16 @@ func RunRaceOne(path string, tries int) int {
 	if e := EngineFor(s.Property); e != nil {
 		RunPrelude(e, s, func(p *Script) {
 			if len(p.Tasks) >= 2 {
-				RaceExec(p)
+				if !RaceExec(p) {
+					os.Exit(ExitRaceHang)
+				}
 			}
 		})
 	}
 	for i := 0; i < tries; i++ {
-		RaceExec(s)
+		if !RaceExec(s) {
+			return ExitRaceHang
+		}
 	}
 	return 0
 }
@@ -391,6 +485,15 @@ func replayRace(path string, s *Script) int {
 	if raceExe == "" {
 		fmt.Fprintln(os.Stderr, "tabsim: replaying a race finding needs the -race build (use ./check replay <file>)")
 		return 2
+	}
+	if s.Expect != nil && strings.HasSuffix(s.Expect.Signature, "/parallel-hang") {
+		if raceHangs(raceExe, path, 5, 8) {
+			fmt.Printf("replay: %s\nreplay: REPRODUCED (the parallel execution did not finish within %v)\n", s.Expect.Signature, raceHangTimeout)
+			fmt.Printf("VIOLATION property=%s replay=%s\n", s.Property, path)
+			return 1
+		}
+		fmt.Println("replay: every parallel execution finished")
+		return 0
 	}
 	other := ""
 	for i := 0; i < 20; i++ {
